@@ -113,6 +113,10 @@ def run(I, node, ordinal, it, st, spec):
         return run_members(I, node, ordinal, it, st, spec)
     cx = I.cx
     pair_mode = isinstance(it, VFunc) and it.kind == "pairs"
+    unpack2 = None
+    if isinstance(node.target, (ast.Tuple, ast.List)) and not pair_mode:
+        # `for a, b in <sequence of 2-tuples>`: the elements are opaque pairs
+        unpack2 = (z3.Function("pair_first", Val, Val), z3.Function("pair_second", Val, Val))
     if pair_mode:
         ks, vs = it.ks, it.vs
         n = z3.Length(ks)
@@ -131,6 +135,8 @@ def run(I, node, ordinal, it, st, spec):
     sth = sth.assume(0 <= i, i < n, *[c for (_n, c) in spec.inv(i, _view(sth, spec), sth)])
     if cx.feasible(sth):
         elem = VTuple([VElem(ks[i]), VElem(vs[i])]) if pair_mode else VElem(S[i])
+        if unpack2 is not None:
+            elem = VTuple([VElem(unpack2[0](S[i])), VElem(unpack2[1](S[i]))])
         frame_before = {o: h for o, h in sth.heap.items()}
         mod_oids = {sth.env[nm].oid for nm in spec.modified}
 
